@@ -1704,7 +1704,10 @@ func compileLogicalOpExprAux(context *funcContext, reg int, expr ast.Expr, ec *e
 		}
 	} else {
 		reg += compileExpr(context, reg, expr, ecnone(0))
-		if !hasnextcond {
+		if sreg == a || jumplabel != lb.e {
+			// the tested value is the result only when the jump leaves the
+			// whole expression; storing it earlier would clobber a target
+			// local that a later operand still reads
 			code.AddABC(OP_TEST, a, 0, 0^flip, sline(expr))
 		} else {
 			code.AddABC(OP_TESTSET, sreg, a, 0^flip, sline(expr))
